@@ -181,7 +181,7 @@ Lemma run_obs_run l : forall s k s', run_obs s l k = inl s' -> run s (map fst l)
 Proof.
   induction l as [|[o bs] l IH]; intros s k s'; cbn [run_obs map fst run].
   - intro H; injection H as <-. reflexivity.
-  - destruct (step s o) as [s1|]; [|discriminate]. destruct (forallb (check_obs s1 o) bs); [|discriminate].
+  - destruct (step s o) as [s1|]; [|discriminate]. destruct (forallb (check_obs s s1 o) bs); [|discriminate].
     apply IH.
 Qed.
 
